@@ -376,7 +376,7 @@ def _as_labeled(array, labeled, funcname, inplace='unused'):
     if inplace == 'unused':
         labeled = np.require(labeled, dtype=np.intc, requirements="CW")
     elif not inplace:
-        labeled = np.array(labeled, dtype=np.intc)
+        labeled = np.array(labeled, dtype=np.intc, order='C')
     elif labeled.dtype != np.intc or not labeled.flags.carray:
         raise ValueError('mahotas.labeled.%s: labeled must be a C-array of type int' % funcname)
 
